@@ -151,7 +151,7 @@ class ValRef:
 
 class Str:
     """String / &str: python str when concrete, Z3 sequence term when symbolic"""
-    __slots__ = ('v',)
+    __slots__ = ('v', 'lower_invariant')
 
     def __init__(self, v):
         self.v = v
@@ -724,7 +724,11 @@ class Engine:
         if kind == 'struct':
             return Adt(name, None, [v for _, v in fields])
         if kind == 'tuple':
+            if len(segs) >= 2 and segs[-2][:1].isupper():
+                return Adt(segs[-2], segs[-1], fields)          # variant of an enum outside the type database
             return Adt(name, None, fields)
+        if kind == 'unit' and len(segs) >= 2 and segs[-2][:1].isupper() and segs[-1][:1].isupper():
+            return Adt(segs[-2], segs[-1], ())
         return None
 
     def rvalue(self, frame, rv, dest_ty=None):
